@@ -28,10 +28,18 @@ StateGraph).
 Still decided per generated grammar only: that the implementation's run IS the mirror's run (replay: identical graph)
 and that StateTable::new builds the induced table (cell-by-cell comparison on conflict-free grammars; validators on the
 dumped table); "never more states than the canonical automaton".
+TEXTBOOK LR(1) (checks/c02_phantom.py, theories/C02/Textbook*.v, Phantom*.v).  `lr1_grammar`, `canon_lr1` and the validators'
+closure condition follow the code's closure, in which an item exists below its parent even with an EMPTY lookahead set; the
+property's premise is the textbook notion (single-lookahead items).  lr1_textbook_grammar states it, lr1_textbook_check is
+its proved-sound certificate, C02_lr1_notions_agree_productive: the two notions coincide when every rule derives a token
+string (all grammars generated above are reduced), C02_phantom_item_costs_determinism_refuted: they do not otherwise — KNOWN
+FINDING: a grammar with an unproductive rule of empty FIRST after a rule reference can be textbook-LR(1) and still get a
+reported conflict, more states than the canonical collection and a rejected sentence.  That part runs an independent
+textbook oracle (triples), the certified extracted canon_tb, and a generator family with unproductive rules.
 """
 from vlib import core, lr, cfg
 from gen import grammars as G
-from checks import c02_weak, c02_loop
+from checks import c02_weak, c02_loop, c02_phantom
 
 
 def gen_cases(ctx, n_grammars, n_inputs):
@@ -145,6 +153,8 @@ def run(ctx):
         nontriv = confB == 0 and r.nstates >= 4
         ctx.case(r.src, nontriv, {"grammar": r.src, "impl_states": r.nstates, "canonical_states": nB,
                                   "lr1": confB == 0, "inputs": len(r.inputs)})
+    # the TEXTBOOK canonical collection as the reference (triples oracle + certified canon_tb), grammars with unproductive rules
+    c02_phantom.run_part(ctx, results)
     # stage 1 tie, after the property-level comparison so that counterexamples are reported first
     c02_weak.run_part(ctx, results)        # weakly_compatible / weakly_merge vs mirror vs Pager's definition
     c02_loop.run_part(ctx, results)        # pager_stategraph vs its mirror, replaying the implementation's trace
@@ -158,4 +168,8 @@ def run(ctx):
                         "set = oracle input, FIRST/nullable = exact tables, gc = functional model) and the table INDUCED by its graph; "
                         "that the implementation's run is the mirror's run and that StateTable::new builds the induced table is "
                         "decided per generated grammar (replay of the recorded trace: identical graph; cell-by-cell table comparison)",
-                        "'never more states than the canonical automaton' is decided per generated grammar only"]
+                        "'never more states than the canonical automaton' is decided per generated grammar only",
+                        "lr1_grammar is stated over the closure that follows Itemset::close (items without lookahead exist); it is the "
+                        "textbook notion exactly on productive grammars (C02_lr1_notions_agree_productive); on grammars with an "
+                        "unproductive rule the premise is decided by the textbook oracle / lr1_textbook_check and the theorems about the "
+                        "construction do not apply (known finding C02-phantom-item-unproductive-rule)"]
